@@ -300,7 +300,7 @@ def enum_rc_many_rows(col, tier, R, M):
     with equal rows, with empty rows at either end ...).  Vectors already evaluated in (c) (<= R rows, lengths <= M,
     same filling) are not repeated."""
     quick = tier == "quick"
-    full = ["ascii"] if quick else ["ascii", "acgtn", "acgt"]
+    full = ["ascii"] if quick else ["ascii", "acgtn"]
     scope = {e: ((5, 4) if e in full else ((4, 3) if quick else (5, 3))) for e in ENC_SYMBOLS}
     if quick:
         del scope["actg"], scope["actgn"]
@@ -447,12 +447,12 @@ def enum_strand_specific_length_vectors(col, tier, seqs):
     patterns = {4: ["----", "-+-+", "+--+", "-++-", "+-++"], 5: ["-----", "-+-+-", "+---+", "--+--"]}
     col.bounds["strand_specific.length_vectors"] = (
         "every interval-length vector in {0..3}^4%s on the 13-symbol sequences %r, strand patterns %r; quick: the "
-        "encoding rotates with the vector, thorough: every encoding" % ("" if quick else " and {0..3}^5", long_seqs, patterns))
+        "encoding rotates with the vector, thorough: every encoding for 4 intervals" % ("" if quick else " and {0..3}^5", long_seqs, patterns))
     encs = list(long_seqs)
     for n in ((4,) if quick else (4, 5)):
         for k, lengths in enumerate(itertools.product(range(4), repeat=n)):
             for j, pattern in enumerate(patterns[n]):
-                for enc_name in ([encs[(k + j) % len(encs)]] if quick else encs):
+                for enc_name in ([encs[(k + j) % len(encs)]] if (quick or n == 5) else encs):
                     s = long_seqs[enc_name]
                     ivs = [(2 * i, 2 * i + L, pattern[i]) for i, L in enumerate(lengths)]
                     check_strand_specific(col, s, enc_name, ivs, "length-vectors")
@@ -686,9 +686,9 @@ def order_specs(tier):
     variants = ["narrow", "wide", "mixed"]
     specs = []
 
-    def add(scenario, names, lengths, how, k, **kw):
+    def add(scenario, names, lengths, how, k, all_widths=False, **kw):
         records = [[name, contig_sequence(i, lengths[name])] for i, name in enumerate(names)]
-        for which in ([variants[k % 3]] if quick else variants):
+        for which in (variants if all_widths else [variants[k % 3]]):
             spec = {"scenario": scenario, "records": records, "widths": width_variants(len(records), which), "open": how}
             spec.update(kw)
             specs.append(spec)
@@ -698,7 +698,7 @@ def order_specs(tier):
     #     quick: every placement of 1 among 2, every 3rd placement of 2 among 3, the first placement of the others
     reg = ["chr1", "chr2", "chr3"]
     und = ["chr1_gl000191_random", "chrUn_gl000211"]
-    lengths = {"chr1": 5, "chr2": 3, "chr3": 4, "chr1_gl000191_random": 6, "chrUn_gl000211": 2, "chr10": 4}
+    lengths = {"chr1": 5, "chr2": 4, "chr3": 6, "chr1_gl000191_random": 7, "chrUn_gl000211": 4, "chr10": 4}
     k = 0
     for n_reg in (2, 3):
         for n_und in (1, 2):
@@ -710,7 +710,7 @@ def order_specs(tier):
                 k += 1
                 if quick and not ((n_reg, n_und) == (2, 1) or ((n_reg, n_und) == (3, 2) and pi % 3 == 0) or pi == 0):
                     continue
-                add("underscore-contigs", names, lengths, "fasta", k)
+                add("underscore-contigs", names, lengths, "fasta", k, all_widths=not quick)
                 if not quick or (n_reg, n_und, pi) == (3, 2, 0):
                     add("underscore-contigs:keep_all", names, lengths, "fasta", k + 1, filter="keep_all")
     # (2) sort_names=True on every file order of {chr1, chr10, chr2} (thorough: and of these plus an underscore contig)
@@ -721,11 +721,11 @@ def order_specs(tier):
         for k, perm in enumerate(itertools.permutations(names3 + [und[0]])):
             add("sort_names", list(perm), lengths, "fasta", k, sort_names=True)
     # (3) chrom.sizes file / dict in another order than the FASTA: every order of every subset of >= 2 contigs
-    #     against every file order (quick: one file order, every full order and every 2nd ordered pair for the
+    #     against three file orders; the dict for every 3rd of them, chrom.sizes + sort_names=True for every full order
+    #     on the first file order (quick: one file order, every full order and every 2nd ordered pair for the
     #     chrom.sizes file, two orders for the dict)
     file_orders = list(itertools.permutations(reg))
-    if quick:
-        file_orders = [file_orders[4]]
+    file_orders = [file_orders[4]] if quick else [file_orders[4], file_orders[0], file_orders[3]]
     k = 0
     for forder in file_orders:
         for m in (3, 2):
@@ -734,9 +734,9 @@ def order_specs(tier):
                 if quick and m == 2 and oi % 2:
                     continue
                 add("chrom.sizes", list(forder), lengths, "sizes", k, order=list(order))
-                if not quick or (m, oi) in ((3, 0), (2, 2)):
+                if (m, oi) in ((3, 0), (2, 2)) or (not quick and k % 3 == 0):
                     add("from_dict", list(forder), lengths, "dict", k + 1, order=list(order))
-        if not quick:
+        if not quick and forder == file_orders[0]:
             for order in itertools.permutations(reg):
                 k += 1
                 add("chrom.sizes:sort_names", list(forder), lengths, "sizes", k, order=list(order), sort_names=True)
@@ -758,22 +758,23 @@ def order_interval_lists(spec, quick):
     inc = order_included(spec)
     out = []
     # (A) every interval x strand of one contig in one call (quick: the two paths that take genome-encoded intervals
-    #     with strands; the Bed6 path walks the intervals one by one in Python and gets a shorter list below)
+    #     with strands); the Bed6 path walks the intervals one by one in Python and gets a shorter list below
     per_contig = {name: [(a, b, strand, name) for (a, b, strand) in all_intervals(len(seqs[name]))] for name in inc}
     fast_paths = [p for p in ORDER_PATHS if not p.startswith("extract_intervals")]
     for name in inc:
-        for path in (("getitem:stranded", "getitem:from_fields:stranded") if quick else ORDER_PATHS):
+        for path in (("getitem:stranded", "getitem:from_fields:stranded") if quick else fast_paths):
             out.append((path, per_contig[name]))
     # (B) every interval x strand of every contig in one call, contigs interleaved (round robin), forwards and backwards
     mixed = [iv for group in itertools.zip_longest(*[per_contig[name] for name in inc]) for iv in group if iv is not None]
-    for path in (fast_paths if quick else ORDER_PATHS):
+    for path in fast_paths:
         out.append((path, mixed))
         if not quick or path == "getitem:stranded":
             out.append((path, mixed[::-1]))
-    if quick:
-        ends = [(a, b, strand, name) for name in inc for (a, b, strand) in
-                ((0, len(seqs[name]), "-"), (1, len(seqs[name]), "+"), (0, len(seqs[name]) - 1, "-"))]
-        out.append(("extract_intervals:bed6:stranded", ends[::2] + ends[1::2]))
+    ends = [(a, b, strand, name) for name in inc for (a, b, strand) in
+            ((0, len(seqs[name]), "-"), (1, len(seqs[name]), "+"), (0, len(seqs[name]) - 1, "-"))]
+    out.append(("extract_intervals:bed6:stranded", ends[::2] + ends[1::2]))
+    if not quick:
+        out.append(("extract_intervals:bed6:stranded", [(a, b, "+" if s == "-" else "-", name) for a, b, s, name in ends]))
     # (C) one interval per contig in every order of the contigs (quick: the cyclic rotations) x strand assignments
     #     (quick: exactly one '-' or all '-')
     perms = list(itertools.permutations(inc))
@@ -797,12 +798,12 @@ def enum_genomic_order(col, tier, tmp):
     col.bounds["genomic_sequence.contig_order"] = (
         "%d file-backed genomes (Genome.from_file(fasta / chrom.sizes).read_sequence(), Genome.from_dict): underscore contigs "
         "at every place among 2..3 chromosomes (default filter and keep_all), sort_names=True on every file order of 3 names%s, "
-        "chrom.sizes / dict listing every ordered subset of >= 2 of 3 contigs against %s file orders; contig lengths 2..6, "
+        "chrom.sizes / dict listing ordered subsets of >= 2 of 3 contigs (see order_specs) against %s file order(s); contig lengths 4..7, "
         "line widths narrow(2) / wide(60) / mixed per record%s; paths %s; per call: every interval x strand of one contig, "
         "of all contigs interleaved (both directions), one interval per contig in every contig order x strand assignment, "
         "seeded lists of 3..5 non-empty intervals"
-        % (len(specs), "" if quick else " (and of 4 with an underscore contig)", "2" if quick else "all 6",
-           " (quick: one variant per genome, rotating)" if quick else "", ORDER_PATHS))
+        % (len(specs), "" if quick else " (and of 4 with an underscore contig)", "1" if quick else "3",
+           " (one variant per genome, rotating; thorough: all three for the underscore genomes)", ORDER_PATHS))
     rng = random.Random("c14-contig-order-%d" % col.seed)
     for gi, spec in enumerate(specs):
         g = col.guarded(lambda: OrderedGenome(tmp, spec, str(gi)), "genomic_sequence:contig-order:%s:open" % spec["scenario"],
